@@ -20,6 +20,12 @@
 (*   "budget-leak"       a budget of B, taken per operation and given back *)
 (*                       only on acceptance; when it is gone everything is *)
 (*                       refused                                           *)
+(*   "ring-swept"        the same ring, whose stale index entries are      *)
+(*                       swept once 2R items are indexed: the evicted item *)
+(*                       resolves wrongly only while it comes back within  *)
+(*                       a WINDOW (more than R, fewer than 2R newcomers    *)
+(*                       later) - why the drivers run a schedule at        *)
+(*                       several scales                                    *)
 (* Each violates Ageless, and none of them before the resource is used up  *)
 (* (YoungIsBlind): a history shorter than the table cannot see them.  That *)
 (* is why the drivers scale every phase of a generated schedule to more    *)
@@ -59,7 +65,7 @@ Init ==
 \* the decision on item number i of its[] (a new or an old one)
 Decide(i, its) ==
   LET t == IF its[i].good THEN "accept" ELSE "refuse" IN
-  CASE Deviation = "ring-stale-index" ->
+  CASE Deviation \in {"ring-stale-index", "ring-swept"} ->
          IF i \in DOMAIN index /\ index[i] # R       \* indexed: the answer of whatever the slot holds NOW
            THEN (IF its[ring[index[i]]].good THEN "accept" ELSE "refuse")
            ELSE t
@@ -69,11 +75,15 @@ Decide(i, its) ==
 
 \* bookkeeping of the deviations after deciding item i
 Remember(i, its) ==
-  /\ IF Deviation = "ring-stale-index" /\ ~(i \in DOMAIN index /\ index[i] # R)
+  /\ IF Deviation \in {"ring-stale-index", "ring-swept"} /\ ~(i \in DOMAIN index /\ index[i] # R)
        THEN /\ ring' = [ring EXCEPT ![nxt] = i]
             /\ nxt' = (nxt + 1) % R
             \* the evicted item keeps its index entry (the defect); R marks "not indexed"
-            /\ index' = [j \in 1..Len(its) |-> IF j = i THEN nxt ELSE IF j \in DOMAIN index THEN index[j] ELSE R]
+            /\ LET kept == [j \in 1..Len(its) |-> IF j = i THEN nxt ELSE IF j \in DOMAIN index THEN index[j] ELSE R]
+                   ring2 == [ring EXCEPT ![nxt] = i]
+               IN index' = IF Deviation = "ring-swept" /\ Cardinality({j \in DOMAIN kept : kept[j] # R}) >= 2 * R
+                             THEN [j \in DOMAIN kept |-> IF kept[j] # R /\ ring2[kept[j]] = j THEN kept[j] ELSE R]   \* the sweep
+                             ELSE kept
        ELSE UNCHANGED <<ring, nxt, index>>
   /\ IF Deviation = "budget-leak" /\ budget > 0 /\ Decide(i, its) = "refuse"
        THEN budget' = budget - 1 ELSE UNCHANGED budget
@@ -102,8 +112,13 @@ Ageless == last = <<>> \/ last[2] = Truth(last[1])
 
 \* the deviations are invisible until their resource is used up
 YoungIsBlind ==
-  (age <= (CASE Deviation = "ring-stale-index" -> R [] Deviation = "counter-wrap" -> W - 1 [] Deviation = "budget-leak" -> B [] OTHER -> 0))
+  (age <= (CASE Deviation \in {"ring-stale-index", "ring-swept"} -> R [] Deviation = "counter-wrap" -> W - 1 [] Deviation = "budget-leak" -> B [] OTHER -> 0))
      => Ageless
+
+\* "ring-swept": an item that comes back after the sweep is answered rightly again - the wrong answer lives in a window
+\* (checked with the deviation: the FIRST item, re-presented when at least 2R + 1 items have been presented, is right)
+OldIsRightAgain ==
+  (Deviation = "ring-swept" /\ last # <<>> /\ last[1] = 1 /\ Len(items) >= 2 * R + 1) => last[2] = Truth(1)
 
 ----------------------------------------------------------------------------
 \* Generation: every schedule of up to MaxOps phases (the drivers run each phase n times; two equal phases in a row
